@@ -9,15 +9,17 @@ import numpy as np
 import common as C
 import boltz_common as B
 
-LEAN_MODULE = "WallGoVerif.Props.C13"
-LEMMA_MODULES = ["WallGoVerif.Lemmas.Boltz", "WallGoVerif.Model.Boltz"]
+LEAN_MODULES = ["WallGoVerif.Props.C13", "WallGoVerif.Props.C13T"]
+LEMMA_MODULES = ["WallGoVerif.Lemmas.Boltz", "WallGoVerif.Model.Boltz", "WallGoVerif.Lemmas.EOM", "WallGoVerif.Model.EOM"]
 GEN_MODULES = ["Boltz"]
 VALIDATE_ONLY = {"deltaIntegrand", "weightDelta00", "weightDelta02", "weightDelta20", "weightDelta11"}
 VALIDATION_POINTS = (200, 4000)
 RULE = ("obligations = Lean theorems of Props.C13 (generated integrand/weights = d^3p/((2pi)^3 E) in cylindrical coordinates pulled "
         "back by the grid maps; moment = double Gauss-Chebyshev-Lobatto sum, exact on the exactness family; linearity) + translator "
         "validation + Float correspondence of Model.Boltz.moment with the real getDeltas + exactness search on the real solver with "
-        "deviations drawn from the exactness family; distinct = (N, momentum scale, mass, moment, polynomial degrees)")
+        "deviations drawn from the exactness family + Props.C13T (Model.EOM.deltaToTmunu = boosted plasma-frame momentum integral summed over "
+        "species, species do not mix) with Float correspondence of that model against the real EOM.deltaToTmunu for 1-3 species and a direct "
+        "boosted quadrature of p^mu p^nu on the real solver; distinct = (N, momentum scale, mass, moment, polynomial degrees) or (species, velocity)")
 ASSUMPTIONS = ["deviations are supplied on the grid in the Cardinal basis; exact integrals from closed-form moments of sqrt(1-x^2)"]
 
 
@@ -72,6 +74,45 @@ def corr(rep: C.Report, tier: str):
     bad = [(e, C.b2f(int(o))) for e, o in zip(expect, outs) if abs(C.b2f(int(o)) - e) > 1e-11 * (abs(e) + 1e-300)]
     rep.obligation("correspondence Model.Boltz.moment (with Model.Poly weights) = BoltzmannSolver.getDeltas", "correspondence",
                    not bad, f"{len(lines)} moments; {bad[:2]}")
+    # EOM.deltaToTmunu (real method, mock particles and harness-chosen moments) against Model.EOM.deltaToTmunu, 1..3 species
+    import eom_common as EC
+    from types import SimpleNamespace
+    o = EC.make_eom("toy1", M=20)
+    eom, grid = o["eom"], o["grid"]
+    lines, expect, inputs = [], [], []
+    for npart in (1, 2, 3, 2, 3, 1) if tier == "quick" else (1, 2, 3) * 20:
+        parts = [SimpleNamespace(totalDOFs=r.choice((1, 6, 12)), msqVacuum=(lambda f, y=r.uniform(0, 2): y * 1.0)) for _ in range(npart)]
+        msqs = [p.msqVacuum(None) for p in parts]
+        D = {n_: np.array([[r.uniform(-1, 1) for _ in range(grid.M - 1)] for _ in range(npart)]) for n_ in ("Delta00", "Delta02", "Delta20", "Delta11")}
+        deltas = SimpleNamespace(**{n_: SimpleNamespace(coefficients=v) for n_, v in D.items()})
+        saved = eom.particles
+        eom.particles = parts
+        try:
+            idx = r.randint(0, grid.M - 2)
+            vmid = -r.uniform(0.05, 0.8)
+            t30, t33 = eom.deltaToTmunu(idx, None, vmid, deltas)
+        finally:
+            eom.particles = saved
+        flat = []
+        for i, p in enumerate(parts):
+            flat += [p.totalDOFs, msqs[i], D["Delta00"][i, idx], D["Delta02"][i, idx], D["Delta20"][i, idx], D["Delta11"][i, idx]]
+        lines.append(f"tmunu {C.f2b(vmid)} {npart} " + " ".join(str(C.f2b(float(x))) for x in flat))
+        expect.append([float(t30), float(t33)])
+        inputs.append({"velocityMid": vmid, "species(dofs, msq, Delta00, Delta02, Delta20, Delta11)": [flat[6 * i:6 * i + 6] for i in range(npart)]})
+        rep.case(key=("corr", "tmunu", npart, len(lines)))
+        rep.count(f"deltaToTmunu {npart} species")
+    outs = C.lean_run("EOMF", lines)
+    bad = []
+    for ex, out, inp in zip(expect, outs, inputs):
+        got = [C.b2f(int(t)) for t in out.split()] if out.strip() != "bad-op" else []
+        if len(got) != 2 or any(abs(a - b_) > 1e-11 * (abs(b_) + 1e-300) + 1e-300 for a, b_ in zip(got, ex)):
+            bad.append(dict(inp, real_T30_T33=ex, boosted_momentum_integral_T30_T33=got))
+    rep.obligation("correspondence Model.EOM.deltaToTmunu(Float) = real EOM.deltaToTmunu (1-3 species)", "correspondence", not bad,
+                   f"{len(lines)} calls; {str(bad[:1])[:300]}")
+    if bad:
+        # Props.C13T proves that the model value IS the boosted momentum integral: a disagreement is a concrete failing input
+        rep.violation("EOM.deltaToTmunu differs from the boosted plasma-frame momentum integral assembled from the same moments (Props.C13T)",
+                      bad[0], finding_key="C13:tmunu")
 
 
 def search(rep: C.Report, tier: str, broken):
@@ -138,5 +179,55 @@ def search(rep: C.Report, tier: str, broken):
                     a2 = got[None] + 2.5 * getattr(solver.getDeltas(to_solver_basis(dF2)).Deltas, nm).coefficients
                     if np.max(np.abs(a1 - a2)) > 1e-10 * (np.max(np.abs(a1)) + sc):
                         rep.violation(f"{nm} is not linear in the deviation", {"N": N, "moment": nm}, finding_key=f"C13:linear:{nm}")
+            finally:
+                clean()
+    # ---- T30/T33 of several species: the real getDeltas + EOM.deltaToTmunu against a DIRECT quadrature of the boosted p^mu p^nu
+    # (p'^3 = gamma (pz + v E), p'^0 = gamma (E + v pz)) with the analytic momentum maps, summed over the species
+    import eom_common as EC
+    eom = EC.make_eom("toy1", M=20)["eom"]
+    for N in ((5, 7) if tier == "quick" else (5, 7, 9, 11)):
+        for npart, Tscale in ((2, 1.0), (3, 0.3)) if tier == "quick" else ((1, 1.0), (2, 1.0), (3, 0.3), (2, 20.0), (3, 4.0)):
+            solver, grid, parts, clean = B.make_solver(M=4, N=N, basisM="Cardinal", basisN="Cardinal", nparticles=npart, stats=("Fermion", "Boson"),
+                                                       y2=(0.3, 0.9, 0.05), dofs=(12, 6, 2), Tscale=Tscale)
+            try:
+                solver.setBackground(B.background(grid, dphi=1.0 * Tscale, phi0=0.2 * Tscale, T0=Tscale))
+                W = _weights(solver, grid, parts)
+                n = N - 1
+                rz, rp = grid.rzValues, grid.rpValues
+                sz = np.sqrt(1 - rz ** 2) * math.pi / N
+                wp = np.full(n, math.pi / (N - 1))
+                wp[0] /= 2
+                sp = np.sqrt(1 - rp ** 2) * wp
+                q = sz[:, None] * sp[None, :]
+                dF = np.array([r.uniform(-1, 1) for _ in range(npart * 3 * n * n)]).reshape(npart, 3, n, n)
+                res = solver.getDeltas(dF)
+                field = solver.background.fieldProfiles.takeSlice(1, -1, axis=solver.background.fieldProfiles.overFieldPoints)
+                I00 = np.broadcast_to(W["Delta00"], (npart, 3, n, n))
+                Tm = grid.momentumFalloffT
+                pz = np.broadcast_to((2 * Tm * np.arctanh(rz))[None, None, :, None], (npart, 3, n, n))
+                pp_ = (-Tm * np.log((1 - rp) / 2))[None, None, None, :]
+                msq_ = np.array([p_.msqVacuum(field) for p_ in parts])[:, :, None, None]
+                E = np.broadcast_to(np.sqrt(msq_ + pz ** 2 + pp_ ** 2), (npart, 3, n, n))
+                saved = eom.particles
+                eom.particles = parts
+                try:
+                    for idx in range(3):
+                        vmid = -r.uniform(0.1, 0.85)
+                        g2 = 1.0 / (1.0 - vmid * vmid)
+                        dofs_ = np.array([p_.totalDOFs for p_ in parts], float)[:, None, None]
+                        d30 = float(np.sum(dofs_ * I00[:, idx] * g2 * (pz[:, idx] + vmid * E[:, idx]) * (E[:, idx] + vmid * pz[:, idx]) * dF[:, idx] * q[None]))
+                        d33 = float(np.sum(dofs_ * I00[:, idx] * g2 * (pz[:, idx] + vmid * E[:, idx]) ** 2 * dF[:, idx] * q[None]))
+                        t30, t33 = eom.deltaToTmunu(idx, field.getFieldPoint(idx), vmid, res.Deltas)
+                        rep.case(key=("tmunu-direct", N, npart, Tscale, idx))
+                        rep.count(f"direct T30/T33 quadrature, {npart} species")
+                        sc = float(np.sum(dofs_ * np.abs(I00[:, idx] * E[:, idx] ** 2 * dF[:, idx]) * q[None])) * g2
+                        if not (abs(t30 - d30) <= 1e-9 * sc and abs(t33 - d33) <= 1e-9 * sc):
+                            rep.violation("T30/T33 assembled from the moments differ from the direct momentum integral of the boosted p^mu p^nu times the deviation",
+                                          {"N": N, "species": npart, "momentumFalloffT": Tm, "velocityMid": vmid, "grid_index": idx, "T30": float(t30), "T33": float(t33),
+                                           "direct_T30": d30, "direct_T33": d33,
+                                           "how": "boltz_common.make_solver(nparticles=...).getDeltas(random deviation) -> EOM.deltaToTmunu vs quadrature"},
+                                          finding_key="C13:tmunu-direct")
+                finally:
+                    eom.particles = saved
             finally:
                 clean()
